@@ -5,6 +5,7 @@
     in-place swap decision                (ncmpio_getput.m4 put_varm, ncmpio_i_getput.m4
                                            ncmpio_igetput_varm, ncmpio_i_varn.m4)        -> `canSwapInPlace`, `usesUserBuf`, `swapFlag`
     swap back on the three exits          (put_varm end, req_commit, ncmpio_cancel)      -> `afterExit`
+    getput_vard (put_vard / get_vard, every exit) (ncmpio_vard.c, dispatchers/var_getput.m4) -> `vardPre`, `putVard`, `getVard`
     ncmpio_abuf_malloc / _dealloc         (ncmpio_i_getput.m4)                           -> `A.malloc`, `A.dealloc`
     abuf_coalesce, the `is_used = 0` sites (ncmpio_wait.c: req_commit, ncmpio_cancel)    -> `A.coalesce`, `A.release`, `A.reset`
     NC_EINSUFFBUF test                    (ncmpio_i_getput.m4, ncmpio_i_varn.m4)         -> `S.bput`
@@ -52,7 +53,7 @@ def canSwapInPlace (needSwap : Bool) (h : Hint) (nbytes : Int) : Bool :=
     | .auto => !(decide (nbytes ≤ NC_BYTE_SWAP_BUFFER_SIZE))
   else true
 
-inductive Api | blockingPut | iput | iputVarn | bput | bputVarn
+inductive Api | blockingPut | iput | iputVarn | bput | bputVarn | putVard
 deriving DecidableEq, Repr
 
 structure Req where
@@ -72,6 +73,7 @@ def usesUserBuf (api : Api) (h : Hint) (r : Req) : Bool :=
   | .iputVarn => !r.needConvert && can && r.contig
   | .bput => false
   | .bputVarn => false
+  | .putVard => !r.needConvert && (!r.needSwap || (can && r.contig))   -- getput_vard; nbytes = filetype_size
 
 /-- does MPI_File_write receive the user's buffer address?  ncmpio_read_write (ncmpio_file_io.c)
     packs a NONCONTIGUOUS buffer of at most nc_ibuf_size bytes (default 16 MiB) into a temporary
@@ -98,12 +100,139 @@ def duringIO (api : Api) (h : Hint) (r : Req) (buf : List UInt8) (nelems : Int) 
   | .blockingPut =>
     if usesUserBuf api h r then some (if r.needSwap then inSwapn buf nelems esize else buf)
     else packUser r false buf nelems esize
+  | .putVard =>       -- the same shape as put_varm: swap in place or pack into a fresh xbuf
+    if usesUserBuf api h r then some (if r.needSwap then inSwapn buf nelems esize else buf)
+    else packUser r false buf nelems esize
   | _ => packUser r (usesUserBuf api h r) buf nelems esize
 
 /-- the three exits (end of blocking put_varm, req_commit after the wait, ncmpio_cancel): all of
     them test the recorded flag and swap back -/
 def afterExit (flag : Bool) (buf : List UInt8) (nelems : Int) (esize : Nat) : List UInt8 :=
   if flag then inSwapn buf nelems esize else buf
+
+/-! ### put_vard / get_vard: getput_vard of ncmpio_vard.c, every exit
+
+`nelems` of the C code (the count handed to MPI-IO) and `bnelems` (the number of primitive elements
+in the caller's buffer) are different numbers as soon as the buffer type is a derived type; the
+in-place swap and BOTH swap-back sites use `bnelems`. -/
+
+def NC_EIOMISMATCH : Int := -209
+def NC_ETYPE_MISMATCH : Int := -230
+
+/-- what getput_vard learns about its arguments -/
+structure VardArgs where
+  filetypeNull : Bool      -- filetype == MPI_DATATYPE_NULL
+  filetypeSize : Int       -- MPI_Type_size(filetype)
+  fnelems : Int            -- primitive elements in filetype (ncmpii_dtype_decode)
+  ftypeMatches : Bool      -- element type of filetype == MPI type of the variable's external type
+  buftypeNull : Bool       -- buftype == MPI_DATATYPE_NULL (bufcount is ignored)
+  bufcount : Int
+  perType : Int            -- primitive elements in ONE buftype (ncmpii_dtype_decode)
+  contig : Bool            -- buftype_is_contig as decoded
+  needConvert : Bool
+  needSwap : Bool
+  xsz : Nat                -- varp->xsz (= el_size when buftype is MPI_DATATYPE_NULL)
+  coll : Bool              -- NC_REQ_COLL (the _all API)
+  /-- `MPI_Offset filetype_size;` is assigned only AFTER `else if (type_size == 0) goto err_check;`,
+      so on that exit err_check tests an indeterminate value.  This field is that value (finding
+      vard-zero-size-filetype-uninitialized); 0 = the test happens to fire. -/
+  uninitSize : Int := 0
+deriving Repr
+
+/-- outcome of the argument checks that precede any buffer work (the `goto err_check`s, in order) -/
+inductive VardPre
+  | zero                                                 -- zero-length request, err = NC_NOERR
+  | zeroSizeMissed                                       -- filetype of size 0, but `filetype_size == 0` read garbage ≠ 0
+  | error (e : Int)
+  | go (bufcount bnelems : Int) (contig : Bool)          -- bufcount / bnelems / buftype_is_contig after the checks
+deriving Repr, DecidableEq
+
+def vardPre (a : VardArgs) : VardPre :=
+  if a.filetypeNull then .zero
+  else if a.filetypeSize == 0 then (if a.uninitSize == 0 then .zero else .zeroSizeMissed)
+  else if !a.ftypeMatches then .error NC_ETYPE_MISMATCH
+  else if a.bufcount == 0 && !a.buftypeNull then .zero
+  else if a.buftypeNull then .go (a.filetypeSize / (a.xsz : Int)) (a.filetypeSize / (a.xsz : Int)) true
+  else if a.fnelems != a.perType * a.bufcount then .error NC_EIOMISMATCH
+  else .go a.bufcount (a.perType * a.bufcount) a.contig
+
+structure VardOut where
+  err : Int
+  ioCalled : Bool          -- ncmpio_read_write reached (an independent call returns before it on error / zero length)
+  xbufIsBuf : Bool         -- xbuf == buf
+  mpiCount : Int           -- `nelems`, the count handed to ncmpio_read_write (in units of buftype when xbuf == buf)
+  during : List UInt8      -- the caller's buffer while MPI-IO runs
+  after : List UInt8       -- the caller's buffer when the call returns
+  mpiError : Bool := false -- an MPI call with an invalid handle (fatal under the default error handler)
+deriving Repr, DecidableEq
+
+/-- the exits that do no buffer work: `need_swap_back_buf` is still 0, xbuf is NULL; an independent
+    call returns at once, a collective one takes part with a zero-length request -/
+def vardNoWork (a : VardArgs) (e : Int) (buf : List UInt8) : VardOut :=
+  { err := e, ioCalled := a.coll, xbufIsBuf := false, mpiCount := 0, during := buf, after := buf }
+
+/-- ncmpi_put_vard / ncmpi_put_vard_all.  (NC_ERANGE of a converting put and malloc / MPI failures
+    are outside this model.) -/
+def putVard (h : Hint) (a : VardArgs) (buf : List UInt8) : VardOut :=
+  match vardPre a with
+  | .zero => vardNoWork a NC_NOERR buf
+  | .zeroSizeMissed =>
+    -- nothing was set up (xbuf NULL, nelems 0, need_swap_back_buf 0); the zero-byte MPI write is made even by an
+    -- independent call; the caller's buffer is not touched
+    { err := NC_NOERR, ioCalled := true, xbufIsBuf := false, mpiCount := 0, during := buf, after := buf }
+  | .error e => vardNoWork a e buf
+  | .go bufcount bnelems contig =>
+    let can := canSwapInPlace a.needSwap h a.filetypeSize
+    if !a.needConvert && (!a.needSwap || (can && contig)) then
+      -- xbuf = buf; if (need_swap) { in_swapn(xbuf, bnelems, xsz); need_swap_back_buf = 1; }
+      let b1 := if a.needSwap then inSwapn buf bnelems a.xsz else buf
+      -- both exits (the early return of err_check and the end of the write branch):
+      --   if (need_swap_back_buf) in_swapn(buf, bnelems, xsz);
+      let b2 := if a.needSwap then inSwapn b1 bnelems a.xsz else b1
+      if bufcount == 0 then
+        { err := NC_NOERR, ioCalled := a.coll, xbufIsBuf := true, mpiCount := 0, during := b1, after := b2 }
+      else
+        { err := NC_NOERR, ioCalled := true, xbufIsBuf := true, mpiCount := bufcount, during := b1, after := b2 }
+    else
+      -- a fresh xbuf of filetype_size bytes filled by ncmpio_pack_xbuf(buf -> xbuf): buf is only read
+      if bufcount == 0 then
+        { err := NC_NOERR, ioCalled := a.coll, xbufIsBuf := false, mpiCount := 0, during := buf, after := buf }
+      else
+        { err := NC_NOERR, ioCalled := true, xbufIsBuf := false, mpiCount := bnelems, during := buf, after := buf }
+
+/-- MPI_File_write receives the caller's address: xbuf == buf and ncmpio_read_write does not pack -/
+def putVardMpiUser (h : Hint) (a : VardArgs) : Bool :=
+  match vardPre a with
+  | .go bufcount _ contig => (putVard h a []).xbufIsBuf && contig && bufcount != 0
+  | _ => false
+
+/-- the bytes (external representation) a put of a CONTIGUOUS buffer without type conversion hands
+    to MPI-IO: the caller's buffer itself when swapped in place, else the packed and swapped copy -/
+def putVardWire (a : VardArgs) (bnelems : Int) (buf : List UInt8) : List UInt8 :=
+  if a.needSwap then inSwapn buf bnelems a.xsz else buf
+
+/-- ncmpi_get_vard / _all: which buffer MPI-IO fills (`xbuf == buf` iff no conversion and (no swap or
+    contiguous)), and what ncmpio_unpack_xbuf leaves in a contiguous, non-converting caller buffer
+    given the `wire` bytes read from the file: swapped in place with `bnelems`. -/
+def getVard (a : VardArgs) (buf wire : List UInt8) : VardOut :=
+  match vardPre a with
+  | .zero => vardNoWork a NC_NOERR buf
+  | .zeroSizeMissed =>
+    -- after the zero-byte read `if (filetype_size == 0) return status;` reads the same garbage, so
+    -- ncmpio_unpack_xbuf(…, etype = MPI_DATATYPE_NULL, …, xbuf = NULL) runs: MPI_Type_size(MPI_DATATYPE_NULL)
+    { err := NC_NOERR, ioCalled := true, xbufIsBuf := false, mpiCount := 0, during := buf, after := buf, mpiError := true }
+  | .error e => vardNoWork a e buf
+  | .go bufcount bnelems contig =>
+    let ub := !a.needConvert && (!a.needSwap || contig)
+    if bufcount == 0 then vardNoWork a NC_NOERR buf else
+    { err := NC_NOERR, ioCalled := true, xbufIsBuf := ub, mpiCount := if ub then bufcount else bnelems,
+      during := buf,
+      after := if a.needSwap then inSwapn wire bnelems a.xsz else wire }
+
+def getVardMpiUser (a : VardArgs) : Bool :=
+  match vardPre a with
+  | .go _ _ contig => !a.needConvert && contig
+  | _ => false
 
 /-! ### the attached buffer -/
 
